@@ -68,6 +68,7 @@ type Exec struct {
 	acquired bool
 	entryNext string
 	selfRef string
+	siteOrd map[ssa.Instruction]int
 	entry0 *State
 	preEntry *State
 }
@@ -380,9 +381,21 @@ func (x *Exec) enterLoop(li *loopInfo, ins []edgeIn) *State {
 			// ownership only grows
 			vc.assert(fmt.Sprintf("(forall ((r Int)) (! (=> (select %s r) (select %s r)) :pattern ((select %s r))))", old, c, old))
 		}
+		if k == "RType" {
+			nx := vc.getNext(stIn)
+			vc.assert(fmt.Sprintf("(forall ((x Int)) (! (=> (< x %s) (= (select %s x) (select %s x))) :pattern ((select %s x))))", nx, c, old, c))
+		}
+		if k == "Frozen" {
+			// only allocated arrays can have been retained
+			vc.assert(fmt.Sprintf("(forall ((r Int)) (! (=> (select %s r) (< r %s)) :pattern ((select %s r))))", c, vc.getNext(st), c))
+		}
 		if k == "Calls" {
 			vc.assert(fmt.Sprintf("(forall ((r Int)) (! (>= (select %s r) (select %s r)) :pattern ((select %s r))))", c, old, c))
 		}
+	}
+	if modified["RType"] {
+		c := st.comp["RType"]
+		vc.assert(fmt.Sprintf("(forall ((x Int)) (! (=> (or (<= x 0) (>= x %s)) (= (select %s x) 0)) :pattern ((select %s x))))", vc.get(st, "next"), c, c))
 	}
 	for _, in := range b.Instrs {
 		if phi, ok := in.(*ssa.Phi); ok {
@@ -719,6 +732,17 @@ func (x *Exec) assumeType(st *State, t string, typ types.Type) {
 		}
 	case *types.Pointer, *types.Map, *types.Chan:
 		vc.assert(app("<", t, vc.getNext(st)))
+		if pt, ok := u.(*types.Pointer); ok {
+			if _, isStruct := pt.Elem().Underlying().(*types.Struct); isStruct {
+				if x.g.trackedStruct(pt.Elem()) {
+					vc.regComp("RType", "(Array Int Int)")
+					vc.assert(implies(app(">", t, "0"), eq(sel(vc.get(st, "RType"), t), vc.structTID(pt.Elem()))))
+				}
+				if inModule(namedPkg(pt.Elem())) && !x.g.embeddedByValue(pt.Elem()) {
+					vc.assert(app(">=", t, "0")) // never a sub-object: nil or a whole allocated object
+				}
+			}
+		}
 		if _, isMap := u.(*types.Map); isMap {
 			vc.assert(app(">=", t, "0"))
 		}
@@ -826,7 +850,11 @@ func (x *Exec) instr(st *State, in ssa.Instruction) {
 		return
 	case *ssa.Alloc:
 		et := t.Type().Underlying().(*types.Pointer).Elem()
-		ref := x.alloc(st)
+		tid := "0"
+		if _, isStruct := et.Underlying().(*types.Struct); isStruct && x.g.trackedStruct(et) {
+			tid = vc.structTID(et)
+		}
+		ref := x.allocTyped(st, tid)
 		x.vals[t] = ref
 		switch u := et.Underlying().(type) {
 		case *types.Struct:
@@ -880,6 +908,9 @@ func (x *Exec) instr(st *State, in ssa.Instruction) {
 			return
 		}
 		x.ownerCheck(st, in, lv, true)
+		if lv.kind == "elem" {
+			x.frozenCheck(st, in, "true", lv.arr)
+		}
 		vc.storeLV(st, lv, x.value(t.Val))
 	case *ssa.BinOp:
 		x.binop(st, t)
@@ -990,11 +1021,52 @@ func (x *Exec) instr(st *State, in ssa.Instruction) {
 	}
 }
 
-func (x *Exec) alloc(st *State) string {
+func (x *Exec) alloc(st *State) string { return x.allocTyped(st, "0") }
+
+// closureAt: fields (of ref kinds) of typed allocated objects point below nx in the current heaps.
+// Emitted only for field heaps that this VC has already touched (others carry no knowledge to protect).
+func (x *Exec) closureAt(st *State, nx string) {
+	vc := x.vc
+	r := vc.reg()
+	if len(r.fmeta) == 0 || !x.g.needClosure {
+		return
+	}
+	rt := vc.get(st, "RType")
+	var names []string
+	for k, fm := range r.fmeta {
+		if fm.kind == "" {
+			continue
+		}
+		if _, touched := st.comp[k]; !touched && !vc.isDeclared(quote(strings.Trim(k, "|")+"@"+st.base)) {
+			continue
+		}
+		names = append(names, k)
+	}
+	sort.Strings(names)
+	for _, k := range names {
+		fm := r.fmeta[k]
+		h := vc.get(st, k)
+		tgt := "(select " + h + " x)"
+		if fm.kind == "slice" {
+			tgt = "(s_arr " + tgt + ")"
+		} else {
+			tgt = "(root " + tgt + ")"
+		}
+		vc.assert(fmt.Sprintf("(forall ((x Int)) (! (=> (= (select %s x) %s) (< %s %s)) :pattern ((select %s x))))", rt, fm.tid, tgt, nx, h))
+	}
+}
+
+// allocTyped: a fresh object; tid is the struct type tag of whole struct objects, 0 for everything else
+// (maps, backing arrays, cells, channels, closures, iterators).
+func (x *Exec) allocTyped(st *State, tid string) string {
 	vc := x.vc
 	n := vc.getNext(st)
 	ref := vc.fresh("ref", sInt)
 	vc.assert(eq(ref, n))
+	vc.regComp("RType", "(Array Int Int)")
+	// heap closure at this moment: no existing object of a struct type points to the new object
+	x.closureAt(st, n)
+	vc.set(st, "RType", store(vc.get(st, "RType"), ref, tid))
 	vc.set(st, "next", app("+", n, "1"))
 	return ref
 }
@@ -1530,7 +1602,16 @@ func (x *Exec) runDefers(st *State, in *ssa.RunDefers) {
 }
 
 func (x *Exec) goStmt(st *State, g *ssa.Go) {
-	// spawn: callee preconditions are obligations of the spawner; no effect on the state
+	// spawn: callee preconditions are obligations of the spawner; the only effect is the ghost spawn counter
 	x.g.noteSpawn(x, g)
 	x.spawnCheck(st, g)
+	x.vc.regComp("Spawns", sInt)
+	x.vc.set(st, "Spawns", app("+", x.vc.get(st, "Spawns"), "1"))
+}
+
+func namedPkg(t types.Type) *types.Package {
+	if n, ok := t.(*types.Named); ok {
+		return n.Obj().Pkg()
+	}
+	return nil
 }
